@@ -84,6 +84,40 @@ Definition mon_obs (P : sparams FA) (op : sop FA) (prev : sobs) (o : sobs) : nat
                                  | Some po => negb (ob_connected po) && negb (sticky_ok P (aget p (so_peers prev)) po)
                                  | None => false end
           | _ => false end then 106
+  (* capped first deliveries, on observed numbers: a DeliverMessage credits the forwarder's first-delivery counter of a scored
+     topic by one, up to the cap, whatever the node has recorded about the message before *)
+  else if match op with
+          | SDeliver _ _ from t =>
+              match aget t (spTopics FA P), aget from (so_peers prev), aget from (so_peers o) with
+              | Some tp, Some pp, Some pn =>
+                  let before := match aget t (ob_topics pp) with Some tb => ob_fmd tb | None => PrimFloat.zero end in
+                  let want := let x := PrimFloat.add before PrimFloat.one in if PrimFloat.ltb (tpFMDCap FA tp) x then tpFMDCap FA tp else x in
+                  match aget t (ob_topics pn) with
+                  | Some tn => negb (feq (ob_fmd tn) want)
+                  | None => true
+                  end
+              | _, _, _ => false
+              end
+          | _ => false end then 107
+  (* squared invalid deliveries, on observed numbers: a rejection for a bad / missing / unexpected signature (or self origin) counts
+     one invalid delivery against the forwarder, every time, whatever the node has recorded about that message id *)
+  else if match op with
+          | SReject _ _ from t RSig =>
+              match aget t (spTopics FA P), aget from (so_peers prev), aget from (so_peers o) with
+              | Some _, Some pp, Some pn =>
+                  let before := match aget t (ob_topics pp) with Some tb => ob_imd tb | None => PrimFloat.zero end in
+                  match aget t (ob_topics pn) with
+                  | Some tn => negb (feq (ob_imd tn) (PrimFloat.add before PrimFloat.one))
+                  | None => true
+                  end
+              | _, _, _ => false
+              end
+          | _ => false end then 108
+  (* a peer whose stream has just come up has an entry that is marked connected (only such entries decay and accrue mesh time;
+     an entry not marked connected is thrown away when its retention period ends), whatever was retained about it before *)
+  else if match op with
+          | SAddPeer _ p => match aget p (so_peers o) with Some po => negb (ob_connected po) | None => true end
+          | _ => false end then 109
   (* no NaN anywhere (the class of a recorded finding: last, so that it hides no other clause of the same step) *)
   else if existsb (fun e => PrimFloat.is_nan (ob_score (snd e))) (so_peers o) then 101
   else 0.
@@ -115,6 +149,10 @@ Fixpoint sexec (s : sstate FA) (prev : sobs) (l : list sstepr) (idx : nat) (fnd 
           | None => match smon_only P' (ss_obs st) l' (S idx) with Some (i, c) => VMonFail i c | None => VMismatch idx 2 end
           | Some s' => match obs_ok s' (ss_app st) (ss_obs st) with
                        | O => sexec s' (ss_obs st) l' (S idx) fnd'
+                       (* every counter the node holds agrees with the model (11-13 passed) and only the SCORE differs: the observed score is
+                          not the v1.1 function of the node's own counters, parameters, application score and addresses - the first clause
+                          of the property, on observed data *)
+                       | 14%nat => VMonFail idx 105
                        | c => match smon_only P' (ss_obs st) l' (S idx) with Some (i, c') => VMonFail i c' | None => VMismatch idx c end
                        end
           end
